@@ -36,8 +36,9 @@ ASSUMPTIONS = ['ValLaws (equal_encoding is an equivalence, strict_equal implies 
                'NOT proved: renames/removals between a calc delta and the flush (stage 3), per-column flushes of '
                'doModifyColumn, lossy doc actions inside a bundle with their summary-side restores; these are covered by the '
                'event-trace tie and the implementation oracles only. The full statement is false of the faithful model: '
-               'C01_refuted_removed_table_new_row, C01_refuted_to_formula_type_change, '
-               'C01_refuted_front_restore_written_cell (each replayed on the engine: known findings)']
+               'C01_refuted_to_formula_type_change, C01_refuted_front_restore_written_cell (each replayed on the engine: known '
+               'findings); the former third witness (removed table with rows added in the bundle) was repaired in /repo '
+               '(b239974), the model follows the repaired code and keeps it as C01_regression_removed_table_new_row']
 TECHNIQUE = ('Coq proofs over a hand-written executable model of the action log (per-action inverse lemmas, congruence with '
              'exception sets carried through renames, ActionSummary invariants: created cells / presence maps / LabelRenames, '
              'flush analysis) + event-trace refinement against the running engine (vm_compute) + undo / whole-history undo '
@@ -46,12 +47,12 @@ LEVEL_TEXT = ('Kernel-checked for all documents and all bundles of the shape "do
               'pass the computable side conditions (bundle_ok2): replaying the undo list in reverse restores tables, schema, '
               'row ids and every cell up to encoding; every doc action kind is inverted by its own undo (exact exception '
               'sets); undo of whole histories bundle by bundle; well-formedness preserved. The full statement over arbitrary '
-              'interleavings is refuted by three kernel-checked witnesses, which are real engine defects (known findings). '
+              'interleavings is refuted by two kernel-checked witnesses, which are real engine defects (known findings). '
               'The model is compared with the running engine on recorded event traces of random histories on every run, and '
               'the share of real traces that satisfy the hypotheses of the proved theorem is reported.')
 LEVEL_NOTE = ('kernel strength: the theorems are about the action log (docactions/action_summary/action_obj), not about '
               'useractions.py. Stage 3 (renames/removals between a calc delta and the flush, per-column flushes) is '
-              '_partial: validated by trace refinement and oracles only. Four known findings.')
+              '_partial: validated by trace refinement and oracles only.')
 PROOF_TIMEOUT = 900
 
 
@@ -143,6 +144,15 @@ def report_issue(ctx, issue, shrink=True):
 def search(ctx):
   K = _k1()
   from harness import histrun
+  # corpus, run first: the witnesses of the defects that were repaired in /repo (kind 'fixed' in known_findings.json);
+  # if one fails again it is a plain VIOLATION (fixed entries suppress nothing)
+  for k in core.load_known():
+    if k['property'] == PROP and k.get('kind') == 'fixed' and k.get('witness'):
+      desc = K.replay_witness(k['witness'], PROP, ctx)
+      ctx.count(('corpus', k['id']), nontrivial=True, kind='corpus-witness')
+      if desc:
+        ctx.violation(k['witness'].get('kind') or 'regression', 'regression of %s (%s): %s' % (k['id'], k.get('commit'), desc),
+                      k['witness'])
   res = getattr(ctx, '_k1', None) or K.traced_run(ctx, *sizes(ctx))
   seen = set()
   budget = 6
@@ -177,6 +187,9 @@ def search(ctx):
           break
     except Exception:
       pass
+    if refined is None and 'CircularRefError' in issue['what']:
+      ctx.bump('shared-run-issue-skipped:cyclic-formula-program')     # history-dependent values (C18/C05), outside C01
+      continue
     kind, what = refined if refined else (issue['kind'], issue['what'])
     report_issue(ctx, {'prop': PROP, 'kind': kind, 'what': what, 'replay': w}, shrink=True)
   ctx.count(('shared_run', ctx.tier, ctx.seed), nontrivial=True, kind='shared-history-run')
